@@ -1,5 +1,7 @@
 (* C20 - property theorems only. *)
-From HV Require Import Prelude C20_Model C20_Check C20_Proofs C20_Proofs2 C20_Proofs3.
+From HV Require Import Prelude Tracts Tiling C02_Model C02_Check C20_Model C20_Check C20_Proofs C20_Proofs2 C20_Proofs3 C20_Proofs4.
+From Coq Require Import QArith.
+Open Scope Z_scope.
 
 (* The up-front decision (validate_params, then _prepare_coords) accepts exactly
    the inputs meeting every documented requirement. *)
@@ -67,16 +69,83 @@ Theorem C20_reject_names_violation :
 Proof. exact reject_names_violation_l. Qed.
 Print Assumptions C20_reject_names_violation.
 
+(* Whatever --only_breakpoint says, the value validate_params returns (= the population
+   size handed to simulate_gt) is max(--popsize, 10 * samples): at least ten times the
+   requested samples and at least the requested size, for every --popsize (1, 2n-1, 10n-1, ...). *)
+Theorem C20_effective_popsize_every_flag :
+  forall i b ps, validate_params false (with_only_bp i b) = inr ps ->
+  exists n, nsamples i = Some n /\ ps = Z.max (v_popsize i) (10 * n) /\ 10 * n <= ps /\ v_popsize i <= ps.
+Proof. exact effective_popsize_every_flag_l. Qed.
+Print Assumptions C20_effective_popsize_every_flag.
+
+Theorem C20_effective_popsize_flag_independent :
+  forall i ps ps', validate_params false (with_only_bp i true) = inr ps ->
+  validate_params false (with_only_bp i false) = inr ps' -> ps = ps'.
+Proof. exact effective_popsize_flag_independent_l. Qed.
+Print Assumptions C20_effective_popsize_flag_independent.
+
+(* n = 2 samples, --only_breakpoint, --popsize 1, 2n-1, 2n, 10n-1, 10n, 10n+1, default *)
+Example C20_small_popsize_only_bp :
+  map (fun p => front false false (w_ps p true)) [1; 3; 4; 19; 20; 21; 10000]
+  = [Accept 20; Accept 20; Accept 20; Accept 20; Accept 20; Accept 21; Accept 10000].
+Proof. exact small_popsize_example_l. Qed.
+Print Assumptions C20_small_popsize_only_bp.
+
 (* Soundness of the boolean checker evaluated on the implementation's behaviour:
-   holds = true means what the property says about this input. *)
+   holds = true means what the property says about this input.  For a Valid input:
+   accepted; both the value validate_params returned and the smallest population size
+   any call of _simulate received are >= 10 * samples; simulate_gt and write_breakpoints
+   returned and the file they wrote is well formed in C02's sense. *)
 Theorem C20_holds_outcome_sound :
   forall i o s, holds_outcome i o s = true -> o <> Crash 97 ->
-  (Valid i -> exists ps n h, o = Accept ps /\ nsamples i = Some n /\ 10 * n <= ps /\
-                             s = Completed h /\ 0 < h) /\
+  (Valid i -> exists ps n eff rows, o = Accept ps /\ nsamples i = Some n /\ 10 * n <= ps /\
+                             s = Completed eff rows /\ 10 * n <= eff /\ bp_ok i n rows = true) /\
   (~ Valid i -> side_ok_b i = true -> violated i <> [] ->
    exists k, o = Reject k /\ (k = 0 \/ In (clause_of k) (violated i))).
 Proof. exact holds_outcome_sound_l. Qed.
 Print Assumptions C20_holds_outcome_sound.
+
+(* What the demand on the written file means (bp_ok is C02's holds_bp): 2n rows framed
+   Sample_{k/2+1}_{k mod 2+1} in order; every haplotype tiles the requested chromosomes,
+   in the requested order, each up to the chromosome-end sentinel; every label is a
+   source population (never column 0) with a positive fraction in some generation line. *)
+Theorem C20_bp_ok_sound :
+  forall i n rows, bp_ok i n rows = true ->
+  lenZ rows = 2 * n /\
+  (forall k smp strand h, nth_error rows k = Some (smp, strand, h) ->
+     smp = Z.of_nat k / 2 + 1 /\ strand = Z.of_nat k mod 2 + 1) /\
+  Forall (fun r : bprow => tiles (req_chroms i) (snd r) /\
+     Forall (fun s => 0 < pop s /\ exists line f, In line (model_fracs i) /\
+                        nthZ line (pop s) = Some f /\ (0 < f)%Q) (snd r)) rows.
+Proof. exact bp_ok_sound_l. Qed.
+Print Assumptions C20_bp_ok_sound.
+
+(* ... so on a Valid input every position 0 .. 2^31-1 of every requested chromosome has a label
+   in every written haplotype *)
+Theorem C20_bp_ok_covers :
+  forall i n rows, Valid i -> bp_ok i n rows = true ->
+  forall smp strand h, In (smp, strand, h) rows ->
+  forall c p, In c (req_chroms i) -> 0 <= p <= MAXC -> exists v, label_at h c p = Some v.
+Proof. exact bp_ok_covers_l. Qed.
+Print Assumptions C20_bp_ok_covers.
+
+(* "simulated to completion": an accepted Valid input whose run failed, produced no result
+   within the time limit (kind 12) or was not run never passes the checker *)
+Theorem C20_valid_needs_completion :
+  forall i ps k, Valid i ->
+  holds_outcome i (Accept ps) (SimFailed k) = false /\ holds_outcome i (Accept ps) NotRun = false.
+Proof. exact holds_valid_needs_completion_l. Qed.
+Print Assumptions C20_valid_needs_completion.
+
+Example C20_bp_ok_example :
+  bp_ok (witness_base [[49]] [file_chr1_name_only] None) 1 w_rows = true /\
+  bp_ok (witness_base [[49]] [file_chr1_name_only] None) 1
+        [(1, 1, [mkseg 1 1 200 0]); (1, 2, [mkseg 2 1 MAXC 0])] = false /\
+  bp_ok (witness_base [[49]] [file_chr1_name_only] None) 1
+        [(1, 1, [mkseg 0 1 MAXC 0]); (1, 2, [mkseg 2 1 MAXC 0])] = false /\
+  bp_ok (witness_base [[49]] [file_chr1_name_only] None) 1 [(1, 1, [mkseg 1 1 MAXC 0])] = false.
+Proof. exact bp_ok_example_l. Qed.
+Print Assumptions C20_bp_ok_example.
 
 Theorem C20_valid_b_spec : forall i, valid_b i = true <-> Valid i.
 Proof. exact valid_b_spec. Qed.
